@@ -2,27 +2,28 @@
 """for every /verif/seeded/<id>: apply the patch to /repo, run the checks (own property first, then the rest),
 revert, and record which checks report a violation.  Usage: seed_matrix.py [seed ids...]"""
 import json, os, subprocess, sys, glob
-V = "/verif"
+V = os.path.dirname(os.path.dirname(os.path.abspath(__file__)))
+REPO = os.environ.get("OVM_REPO", REPO)
 man = json.load(open(V + "/MANIFEST.json"))
 claimed = [c["property_id"] for c in man["checks"]]
 seeds = sys.argv[1:] or sorted(os.path.basename(p) for p in glob.glob(V + "/seeded/C*"))
 def sh(cmd, cwd=None):
     return subprocess.run(cmd, shell=True, cwd=cwd, stdout=subprocess.PIPE, stderr=subprocess.STDOUT, text=True)
-if sh("git diff --quiet", "/repo").returncode != 0:
-    sys.exit("/repo has uncommitted changes")
+if sh("git diff --quiet", REPO).returncode != 0:
+    sys.exit(REPO + " has uncommitted changes")
 res = {}
 for sid in seeds:
     d = os.path.join(V, "seeded", sid)
     patch = os.path.join(d, "patch.diff")
-    r = sh("git apply %s" % patch, "/repo")
+    r = sh("git apply %s" % patch, REPO)
     if r.returncode != 0:
-        r = sh("git apply --3way %s" % patch, "/repo")
+        r = sh("git apply --3way %s" % patch, REPO)
     if r.returncode != 0:
         alt = os.path.join(d, "patch_rebased.diff")
-        sh("git reset -q --hard HEAD", "/repo")
-        r = sh("git apply %s" % alt, "/repo") if os.path.exists(alt) else r
+        sh("git reset -q --hard HEAD", REPO)
+        r = sh("git apply %s" % alt, REPO) if os.path.exists(alt) else r
         if r.returncode != 0:
-            print(sid, "PATCH DOES NOT APPLY"); res[sid] = {"applies": False}; sh("git reset -q --hard HEAD", "/repo"); continue
+            print(sid, "PATCH DOES NOT APPLY"); res[sid] = {"applies": False}; sh("git reset -q --hard HEAD", REPO); continue
     fired, broken = {}, []
     order = [sid[:3]] + [c for c in claimed if c != sid[:3]]
     for pid in order:
@@ -33,7 +34,7 @@ for sid in seeds:
             fired[pid] = [l.strip()[:200] for l in o.stdout.splitlines() if l.startswith("  [")][:3]
         elif o.returncode == 2:
             broken.append(pid + ": " + " ".join(l for l in o.stdout.splitlines() if "BROKEN" in l)[:200])
-    sh("git reset -q --hard HEAD", "/repo")
+    sh("git reset -q --hard HEAD", REPO)
     res[sid] = {"applies": True, "caught_by": fired, "analysis_broken": broken}
     print(sid, "caught by", sorted(fired) or "NOTHING", ("| broken: %s" % broken) if broken else "")
     mp = os.path.join(d, "meta.json")
